@@ -12,6 +12,7 @@ import (
 
 // HandlerEvent is one handler invocation (entry), or its exit.
 type HandlerEvent struct {
+	At     time.Duration // fake time since the run started
 	Step   int
 	Peer   string
 	Sess   string // remote address of the session (unique per connection end)
@@ -93,6 +94,9 @@ func SessKey(s interface {
 // RecordHandler logs a handler entry.
 func (o *Observer) RecordHandler(ev HandlerEvent) {
 	ev.Step = o.step()
+	if o.env.Sched != nil {
+		ev.At = o.env.Sched.Now()
+	}
 	o.Handlers = append(o.Handlers, ev)
 }
 
